@@ -595,13 +595,80 @@ class Prop(object):
                 r.outcomes['ok' if not probs else 'violation'] += 1
                 if probs:
                     r.viol('foreign-subkeys', {'kind': 'partial-unlock'}, case, '; '.join(probs))
-        r.samples.append({'subkey_passphrase': 'differs'})
+        # ---- components in different protection states (clear / protected under one passphrase / under another): protect() then gives the key a new
+        # passphrase - directly, or inside the unlock scope of the primary's passphrase.  Whatever it does with a component it cannot open, no secret
+        # integer is lost: every component's export still yields its original integers - under the new passphrase or under the one it had - and, when
+        # protect() went ahead (the primary key was open; on a locked primary it declines with a warning, as documented), a component that was open
+        # is no longer stored in the clear.
+        from pgpy.constants import SymmetricKeyAlgorithm, HashAlgorithm
+        R_ = __import__('mc.recips', fromlist=['x'])
+        R_.set_s2k_count(0)
+        PWS = {'A': b'passphrase A', 'B': b'passphrase B'}
+        states = ['clear', 'A', 'B']
+        template = wire.read_packets(bytes(build('eddsa+ecdh')[0]))
+        for ps in states:
+            for ss in states:
+                if case.get('only') is not None and case['only'] != [ps, ss]:
+                    continue
+                for how in ('direct', 'in-scope'):
+                    if how == 'in-scope' and ps == 'clear' and ss == 'clear':
+                        continue
+                    r.states += 1
+                    r.transitions += 1
+                    out = bytearray()
+                    for p in template:
+                        if p['tag'] == 5:
+                            out += rkeys.secret_packet(prim, body=renc.protect_secret(prim, PWS[ps], coded=0, salt=b'saltsalt', iv=bytes(16))) if ps != 'clear' else rkeys.secret_packet(prim)
+                        elif p['tag'] == 7:
+                            out += rkeys.secret_packet(sub, sub=True, body=renc.protect_secret(sub, PWS[ss], coded=0, salt=b'SALTSALT', iv=bytes(range(16)))) if ss != 'clear' \
+                                else rkeys.secret_packet(sub, sub=True)
+                        else:
+                            out += p['raw']
+                    label = 'primary %s, subkey %s, protect(new passphrase) %s' % (ps, ss, 'called directly' if how == 'direct' else 'inside the unlock scope of the %s passphrase' % (ps if ps != 'clear' else ss))
+                    probs = []
+                    try:
+                        import warnings
+                        k3, _ = pgpy.PGPKey.from_blob(bytes(out))
+                        with warnings.catch_warnings():
+                            warnings.simplefilter('ignore')
+                            if how == 'direct':
+                                k3.protect('new passphrase', SymmetricKeyAlgorithm.AES256, HashAlgorithm.SHA256)
+                            else:
+                                try:
+                                    with k3.unlock(PWS[ps if ps != 'clear' else ss].decode()):
+                                        k3.protect('new passphrase', SymmetricKeyAlgorithm.AES256, HashAlgorithm.SHA256)
+                                except pgpy.errors.PGPDecryptionError:
+                                    pass        # (two different passphrases: the scope cannot be entered; nothing may be lost all the same)
+                        exp = wire.read_packets(bytes(k3))
+                        for tag, rawk, st, nm in ((5, prim, ps, 'primary'), (7, sub, ss, 'subkey')):
+                            body = [p for p in exp if p['tag'] == tag][0]['body']
+                            got = None
+                            for pw in [b'new passphrase'] + ([PWS[st]] if st != 'clear' else []):
+                                try:
+                                    _p, ints_, info = renc.unprotect_secret(body, pw)
+                                    if ints_ == rkeys.secret_ints(rawk):
+                                        got = (pw, info)
+                                        break
+                                except renc.DecryptError:
+                                    pass
+                            if got is None:
+                                probs.append('the secret integers of the %s can no longer be recovered from the export (neither with the new passphrase%s)' % (nm, ' nor with the one it had' if st != 'clear' else ''))
+                            elif st == 'clear' and how == 'direct' and ps == 'clear' and not body[len(rkeys.public_body(rawk)):][:1] in (b'\xfe', b'\xff'):
+                                probs.append('the %s was open when protect() was called and is still stored in the clear' % nm)
+                    except (wire.WireError, pgpy.errors.PGPError, ValueError, TypeError) as e:
+                        probs.append('raised %r' % (e,))
+                    r.outcomes['mixed:' + ('ok' if not probs else 'violation')] += 1
+                    if probs:
+                        r.viol('foreign-subkeys', {'kind': 'mixed-protection', 'how': how}, dict(case, only=[ps, ss]), '%s: %s' % (label, '; '.join(probs[:2])))
+        r.samples.append({'subkey_passphrase': 'differs', 'mixed_states': 9})
         return r
 
     # ----------------------------------------------------------------------------------------------
     def _menu(self):
-        scope_bodies = [(), ('sign',), ('decrypt',), ('sign', 'decrypt'), ('protect2',), ('sign', 'protect2'), ('export',), ('unlock-wrong-inner',), ('sign', 'unlock-wrong-inner')]
-        menu = [('protect', 'p1', 'A'), ('protect', 'p2', 'B'), ('sign',), ('decrypt',), ('export-import',), ('pubkey',), ('copy',), ('unlock-wrong',)]
+        # ('protect-refused': protect() with a cipher PGPy refuses to encrypt with - IDEA - raises; the caller catches it and goes on; the key is as before)
+        scope_bodies = [(), ('sign',), ('decrypt',), ('sign', 'decrypt'), ('protect2',), ('sign', 'protect2'), ('export',), ('unlock-wrong-inner',), ('sign', 'unlock-wrong-inner'),
+                        ('protect-refused',), ('protect-refused', 'sign')]
+        menu = [('protect', 'p1', 'A'), ('protect', 'p2', 'B'), ('sign',), ('decrypt',), ('export-import',), ('pubkey',), ('copy',), ('unlock-wrong',), ('protect-refused',)]
         for b in scope_bodies:
             for crash in [None] + list(range(len(b) + 1)):
                 menu.append(('scope', b, crash))
@@ -683,6 +750,16 @@ class Prop(object):
                     if model['prot'] is None:
                         model['prot'] = op[1]
                         model['cfg'] = op[2]
+                elif kind == 'protect-refused':
+                    try:
+                        import warnings
+                        with warnings.catch_warnings():
+                            warnings.simplefilter('ignore')
+                            key.protect(PW['p2'], SymmetricKeyAlgorithm.IDEA, HashAlgorithm.SHA256)
+                        if model['prot'] is None:
+                            fail('refused-cipher-accepted', 'protect() with IDEA did not raise')
+                    except (pgpy.errors.PGPError, pgpy.errors.PGPEncryptionError, pgpy.errors.PGPInsecureCipherError):
+                        pass
                 elif kind in ('sign', 'decrypt'):
                     try:
                         probs = private_op(key, kind)
@@ -729,6 +806,12 @@ class Prop(object):
                                     probs = private_op(key, inner)
                                     if probs:
                                         fail('private-op-wrong', 'inside scope: ' + '; '.join(probs))
+                                elif inner == 'protect-refused':
+                                    try:
+                                        key.protect(PW['p1'], SymmetricKeyAlgorithm.IDEA, HashAlgorithm.SHA256)
+                                        fail('refused-cipher-accepted', 'protect() with IDEA did not raise inside the scope')
+                                    except (pgpy.errors.PGPError, pgpy.errors.PGPEncryptionError, pgpy.errors.PGPInsecureCipherError):
+                                        pass
                                 elif inner == 'protect2':
                                     key.protect(PW['p2'], *CFG['B'])
                                     model['prot'] = 'p2'
